@@ -62,11 +62,12 @@ FusedHaps(d, a, strict) ==
   IN {H \in SUBSET FusedVars(d, a, strict) : Compatible(H, sidx)}
 FusedRefsOk(d, a) == \A v \in FusedVars(d, a, FALSE) : RefMatches(Fused(d, a), v)
 
-(* peptides of the fused sequence: from the donor's annotated start, or from every   *)
-(* ATG that begins before the junction when the donor is non-coding                  *)
+(* peptides of the fused sequence: from the donor's annotated start when the fused    *)
+(* sequence still has a start codon there, or from every ATG when the donor is        *)
+(* non-coding                                                                         *)
 FusionPeptides(d, a) ==
   UNION {LET s == Apply(Fused(d, a), H)
-             starts == IF C.dinfo[d].coding THEN {C.dinfo[d].orfStart} ELSE AtgStarts(s)   \* any start of the fused sequence (the property only asks for a digestion product of it)
+             starts == IF C.dinfo[d].coding THEN {x \in {C.dinfo[d].orfStart} : IsStart(s, x)} ELSE AtgStarts(s)   \* any start of the fused sequence (the property only asks for a digestion product of it)
          IN UNION {LET o == OrfOf(s, x, {}) IN OrfPeptides(o.pep, C.cfg, TRUE, o.open, FALSE) : x \in starts}
          : H \in FusedHaps(d, a, FALSE)}
 
